@@ -105,6 +105,18 @@ type caseIn struct {
 	Req   string `json:"req"`   // fwd mode: request bytes (hex), response bytes (hex), application write sizes
 	Resp  string `json:"resp"`
 	Wsize []int  `json:"wsize"`
+
+	// gated mode: per-Read chunks of each direction (hex) and the schedule (0 = upload loop, 1 = download loop)
+	Up       []string `json:"up"`
+	Down     []string `json:"down"`
+	Sched    []int    `json:"sched"`
+	Counters bool     `json:"counters"`
+	// duplex mode
+	UpLen    int    `json:"up_len"`
+	DownLen  int    `json:"down_len"`
+	Seed     int    `json:"seed"`
+	Local    string `json:"local"` // "tcp" | "pipe"
+	SmallBuf bool   `json:"small_buf"`
 }
 
 type decObs struct {
@@ -133,6 +145,11 @@ type caseOut struct {
 	Final  string   `json:"final,omitempty"` // result of one more Read after the terminal one: "eof" | "err" | "data"
 	Broken bool     `json:"broken"`
 	Hostile bool    `json:"hostile"`
+
+	UpMid     string `json:"up_mid,omitempty"` // gated mode: bytes delivered per direction after the scheduled prefix / at the end
+	DownMid   string `json:"down_mid,omitempty"`
+	UpFinal   string `json:"up_final,omitempty"`
+	DownFinal string `json:"down_final,omitempty"`
 
 	Ids   []string `json:"ids,omitempty"`   // tid mode: TunnelIDFromString(s) hex
 	Backs []string `json:"backs,omitempty"` // tid mode: TunnelIDToString(id) hex
@@ -934,6 +951,10 @@ func runCase(raw json.RawMessage) (res interface{}) {
 		runConc(&c, out)
 	case "fwd":
 		runFwd(&c, out)
+	case "gated":
+		runGated(&c, out)
+	case "duplex":
+		runDuplex(&c, out)
 	default:
 		panic("bad mode " + c.Mode)
 	}
